@@ -38,12 +38,29 @@ META = {
                 note=TB),
 }
 
+META.update({
+    "C08": dict(technique="Lean 4 proof (sequential duplicate test implies pairwise no-conflict) + differential fault injection",
+                text="Theorem C08.seqCheck_pairwise: the duplicate test the loader runs (a dictionary of the latest atom per name, as coded in TreeToODE.ode and used by the "
+                     "Lean loader model) implies that any two atoms with the same name - of any kinds, in any components - are the same definition; executable checks of the model's "
+                     "loader on the documented faults. 17 kinds of single well-formedness fault are injected into generated well-formed models at random sites; the real loader + "
+                     "code generator must raise, and its accept/reject class must equal the model's.",
+                note=TB + "Missing/orphan derivatives, undefined symbols and cycles are rejected by the model's loader by construction (and compared with the implementation on every fault); a general theorem 'accepted => WellFormed' covering them is not yet stated."),
+    "C09": dict(technique="Lean 4 proof (invariance under the iteration order of every dependency set; history invariant) + subprocess differential runs",
+                text="Theorems sort_iter_invariant, layout_iter_invariant, gen{Rhs,Monitor,Euler,GRL,Hybrid}_iter_invariant: for traversal orders that are permutations of the same "
+                     "dependency sets the sorted order, the layout and every generated program are equal; pin deps_sorted (extracted from sort_assignments); history_invariant for "
+                     "get_scheme / generate sequences. Real code: fresh subprocesses under several PYTHONHASHSEED values and after earlier calls, byte comparison of NumPy/C/JAX text "
+                     "and slot layout; adversarial iteration orders injected into every dependency set in-process; the model's predicted order compared with the implementation's.",
+                note=TB + "CPython's graphlib is modelled (Topo.lean) and compared with the implementation's order on every model."),
+    "C10": dict(technique="Lean 4 proof (name-sorted tuples are canonical; generators are functions of them) + differential permutation runs",
+                text="Theorems sortByName_canonical / model_of_perm (a duplicate-free list sorted by name is determined by its set), code_of_equal_models, plus C09's invariance "
+                     "theorems. Partial: the statement for the whole text-level loader is not proved; it is checked by running the model's loader and the real loader on block / entry / line "
+                     "permutations: == both ways, generated NumPy and C bytes, slot layout, component membership.",
+                note=TB),
+})
+
 NOT_APPLICABLE = {
     "C02": "check not built yet in this session (C backend); planned, see DESIGN.md section 7",
     "C03": "check not built yet in this session (JAX backend); planned",
-    "C08": "check not built yet in this session; planned",
-    "C09": "check not built yet in this session; planned",
-    "C10": "check not built yet in this session; planned",
     "C11": "check not built yet in this session; planned",
     "C13": "check not built yet in this session; planned",
     "C14": "check not built yet in this session; planned",
